@@ -85,8 +85,7 @@ def struct_word(pattern, filler, stars, backbone, geoms, force=None):
                 fixed[pos] = "fixed"
             pos += 1
         elif t[0] == "star":
-            ln = stars[si % len(stars)] if stars else 0
-            ln = max(ln, t[3] if len(t) > 3 else 0)
+            ln = gen.run_length(t, stars[si % len(stars)] if stars else 0)
             si += 1
             pos += ln
     chars = list(text)
